@@ -336,8 +336,8 @@ class WCS(object):
             x,y = wcs.image2sky(ra,dec)
         """
 
-        # Only do this if there is distortion
-        if find and self.distort["name"] != "none":
+        # Only do this if there is distortion and it was requested
+        if find and distort and self.distort["name"] != "none":
             x, y = self._findxy(longitude, latitude, xtol=xtol)
         else:
             u, v = self.sph2image(longitude, latitude)
